@@ -84,6 +84,13 @@ func dynamicReplace(in, out cty.Type) cty.Type {
 		outTypes := map[string]cty.Type{}
 		if in.IsMapType() {
 			for attr, attrType := range out.AttributeTypes() {
+				if out.AttributeOptional(attr) {
+					// The map may have no element for an optional attribute,
+					// and the attribute is then a null of the attribute type
+					// as given, so a placeholder in it stays undecided.
+					outTypes[attr] = attrType
+					continue
+				}
 				outTypes[attr] = dynamicReplace(in.ElementType(), attrType)
 			}
 		}
